@@ -96,6 +96,15 @@ func VerifStubAccept(s *yamux.Session, ctx context.Context) (*yamux.Stream, erro
 			vProbe()
 		}
 		return &yamux.Stream{}, nil
+	case 7: // nothing arrives: accept returns only when its context ends
+		if vBlock != nil {
+			vBlock(ctx)
+		}
+		if err := ctx.Err(); err != nil {
+			return nil, err
+		}
+		// the handler would wait forever (reported by vBlock); end the run
+		return nil, net.ErrClosed
 	}
 	return nil, VerifErrAccept
 }
